@@ -297,3 +297,241 @@ Proof.
   - change (b :: t) with ([b] ++ t). apply valid_app; [|exact IH].
     apply valid_char. cbn [char_ok]. lia.
 Qed.
+
+(* ---------- 9-12 : encode / decode round trips ---------- *)
+Lemma mod_sub : forall a k m, m <> 0 -> k * m <= a < (k + 1) * m -> a mod m = a - k * m.
+Proof.
+  intros a k m Hm Ha. symmetry. apply N.mod_unique with (q := k); lia.
+Qed.
+
+Lemma decomp2 : forall c, c = (c / 64) * 64 + c mod 64 /\ c mod 64 < 64.
+Proof.
+  intros c. pose proof (N.div_mod c 64) as H. pose proof (N.mod_lt c 64) as H1. lia.
+Qed.
+
+Lemma decomp3 : forall c,
+  c = (c / 4096) * 4096 + ((c / 64) mod 64) * 64 + c mod 64 /\ (c / 64) mod 64 < 64 /\ c mod 64 < 64.
+Proof.
+  intros c. pose proof (N.div_mod c 64) as H. pose proof (N.mod_lt c 64) as H1.
+  pose proof (N.div_mod (c / 64) 64) as H2. pose proof (N.mod_lt (c / 64) 64) as H3.
+  rewrite N.div_div in H2 by lia. change (64 * 64) with 4096 in H2. lia.
+Qed.
+
+Lemma decomp4 : forall c,
+  c = (c / 262144) * 262144 + ((c / 4096) mod 64) * 4096 + ((c / 64) mod 64) * 64 + c mod 64 /\
+  (c / 4096) mod 64 < 64 /\ (c / 64) mod 64 < 64 /\ c mod 64 < 64.
+Proof.
+  intros c. pose proof (N.div_mod c 64) as H. pose proof (N.mod_lt c 64) as H1.
+  pose proof (N.div_mod (c / 64) 64) as H2. pose proof (N.mod_lt (c / 64) 64) as H3.
+  rewrite N.div_div in H2 by lia. change (64 * 64) with 4096 in H2.
+  pose proof (N.div_mod (c / 4096) 64) as H4. pose proof (N.mod_lt (c / 4096) 64) as H5.
+  rewrite N.div_div in H4 by lia. change (4096 * 64) with 262144 in H4. lia.
+Qed.
+
+Lemma encode_cp_ok : forall c, is_scalar c = true -> char_ok (encode_cp c) = true.
+Proof.
+  intros c Hs. unfold encode_cp, is_scalar in *.
+  destruct (c <? 128) eqn:E1; [cbn [char_ok]; exact E1|].
+  destruct (c <? 2048) eqn:E2.
+  { cbn [char_ok]. unfold in_range. destruct (decomp2 c) as [H Hr].
+    revert H Hr. generalize (c / 64) (c mod 64). intros q r H Hr. lia. }
+  destruct (c <? 65536) eqn:E3.
+  { cbn [char_ok]. unfold in_range. destruct (decomp3 c) as [H [Hq Hr]].
+    revert H Hq Hr. generalize (c / 4096) ((c / 64) mod 64) (c mod 64). intros q1 q2 r H Hq Hr. lia. }
+  cbn [char_ok]. unfold in_range. destruct (decomp4 c) as [H [Hq2 [Hq3 Hr]]].
+  revert H Hq2 Hq3 Hr. generalize (c / 262144) ((c / 4096) mod 64) ((c / 64) mod 64) (c mod 64).
+  intros q1 q2 q3 r H Hq2 Hq3 Hr. lia.
+Qed.
+
+Lemma decode_encode : forall c, is_scalar c = true -> decode_cp (encode_cp c) = c.
+Proof.
+  intros c Hs. unfold encode_cp, is_scalar in *.
+  destruct (c <? 128) eqn:E1; [reflexivity|].
+  destruct (c <? 2048) eqn:E2.
+  { cbn [decode_cp]. destruct (decomp2 c) as [H Hr].
+    revert H Hr. generalize (c / 64) (c mod 64). intros q r H Hr.
+    rewrite (mod_sub (192 + q) 6 32) by lia. rewrite (mod_sub (128 + r) 2 64) by lia. lia. }
+  destruct (c <? 65536) eqn:E3.
+  { cbn [decode_cp]. destruct (decomp3 c) as [H [Hq Hr]].
+    revert H Hq Hr. generalize (c / 4096) ((c / 64) mod 64) (c mod 64). intros q1 q2 r H Hq Hr.
+    rewrite (mod_sub (224 + q1) 14 16) by lia. rewrite (mod_sub (128 + q2) 2 64) by lia.
+    rewrite (mod_sub (128 + r) 2 64) by lia. lia. }
+  cbn [decode_cp]. destruct (decomp4 c) as [H [Hq2 [Hq3 Hr]]].
+  revert H Hq2 Hq3 Hr. generalize (c / 262144) ((c / 4096) mod 64) ((c / 64) mod 64) (c mod 64).
+  intros q1 q2 q3 r H Hq2 Hq3 Hr.
+  rewrite (mod_sub (240 + q1) 30 8) by lia. rewrite (mod_sub (128 + q2) 2 64) by lia.
+  rewrite (mod_sub (128 + q3) 2 64) by lia. rewrite (mod_sub (128 + r) 2 64) by lia. lia.
+Qed.
+
+Lemma digits2 : forall x y, y < 64 ->
+  (x * 64 + y) / 64 = x /\ (x * 64 + y) mod 64 = y.
+Proof.
+  intros x y Hy. split; symmetry.
+  - apply N.div_unique with (r := y); lia.
+  - apply N.mod_unique with (q := x); lia.
+Qed.
+
+Lemma digits3 : forall x y z, y < 64 -> z < 64 ->
+  (x * 4096 + y * 64 + z) / 4096 = x /\ ((x * 4096 + y * 64 + z) / 64) mod 64 = y /\
+  (x * 4096 + y * 64 + z) mod 64 = z.
+Proof.
+  intros x y z Hy Hz. split; [|split]; symmetry.
+  - apply N.div_unique with (r := y * 64 + z); lia.
+  - replace ((x * 4096 + y * 64 + z) / 64) with (x * 64 + y)
+      by (apply N.div_unique with (r := z); lia).
+    apply N.mod_unique with (q := x); lia.
+  - apply N.mod_unique with (q := x * 64 + y); lia.
+Qed.
+
+Lemma digits4 : forall x y z w, y < 64 -> z < 64 -> w < 64 ->
+  (x * 262144 + y * 4096 + z * 64 + w) / 262144 = x /\
+  ((x * 262144 + y * 4096 + z * 64 + w) / 4096) mod 64 = y /\
+  ((x * 262144 + y * 4096 + z * 64 + w) / 64) mod 64 = z /\
+  (x * 262144 + y * 4096 + z * 64 + w) mod 64 = w.
+Proof.
+  intros x y z w Hy Hz Hw. split; [|split; [|split]]; symmetry.
+  - apply N.div_unique with (r := y * 4096 + z * 64 + w); lia.
+  - replace ((x * 262144 + y * 4096 + z * 64 + w) / 4096) with (x * 64 + y)
+      by (apply N.div_unique with (r := z * 64 + w); lia).
+    apply N.mod_unique with (q := x); lia.
+  - replace ((x * 262144 + y * 4096 + z * 64 + w) / 64) with (x * 4096 + y * 64 + z)
+      by (apply N.div_unique with (r := w); lia).
+    apply N.mod_unique with (q := x * 64 + y); lia.
+  - apply N.mod_unique with (q := x * 4096 + y * 64 + z); lia.
+Qed.
+
+Lemma encode_decode : forall ch, char_ok ch = true -> encode_cp (decode_cp ch) = ch.
+Proof.
+  intros ch Hc. destruct ch as [|a [|b [|c [|d [|e r]]]]]; cbn [char_ok] in Hc; try discriminate Hc;
+    cbn [decode_cp]; unfold in_range in Hc.
+  - unfold encode_cp. rewrite Hc. reflexivity.
+  - assert (Ha : a mod 32 = a - 192) by (apply (mod_sub a 6 32); lia).
+    assert (Hb : b mod 64 = b - 128) by (apply (mod_sub b 2 64); lia).
+    rewrite Ha, Hb. unfold encode_cp.
+    destruct (_ <? 128) eqn:E1; [lia|]. destruct (_ <? 2048) eqn:E2; [|lia].
+    destruct (digits2 (a - 192) (b - 128)) as [H1 H2]; [lia|]. rewrite H1, H2.
+    f_equal; [lia|f_equal; lia].
+  - assert (Ha : a mod 16 = a - 224) by (apply (mod_sub a 14 16); lia).
+    assert (Hb : b mod 64 = b - 128) by (apply (mod_sub b 2 64); lia).
+    assert (Hc' : c mod 64 = c - 128) by (apply (mod_sub c 2 64); lia).
+    rewrite Ha, Hb, Hc'. unfold encode_cp.
+    destruct (_ <? 128) eqn:E1; [lia|]. destruct (_ <? 2048) eqn:E2; [lia|].
+    destruct (_ <? 65536) eqn:E3; [|lia].
+    destruct (digits3 (a - 224) (b - 128) (c - 128)) as [H1 [H2 H3]]; [lia|lia|]. rewrite H1, H2, H3.
+    f_equal; [lia|f_equal; [lia|f_equal; lia]].
+  - assert (Ha : a mod 8 = a - 240) by (apply (mod_sub a 30 8); lia).
+    assert (Hb : b mod 64 = b - 128) by (apply (mod_sub b 2 64); lia).
+    assert (Hc' : c mod 64 = c - 128) by (apply (mod_sub c 2 64); lia).
+    assert (Hd : d mod 64 = d - 128) by (apply (mod_sub d 2 64); lia).
+    rewrite Ha, Hb, Hc', Hd. unfold encode_cp.
+    destruct (_ <? 128) eqn:E1; [lia|]. destruct (_ <? 2048) eqn:E2; [lia|].
+    destruct (_ <? 65536) eqn:E3; [lia|].
+    destruct (digits4 (a - 240) (b - 128) (c - 128) (d - 128)) as [H1 [H2 [H3 H4]]]; [lia|lia|lia|].
+    rewrite H1, H2, H3, H4.
+    f_equal; [lia|f_equal; [lia|f_equal; [lia|f_equal; lia]]].
+Qed.
+
+Lemma decode_scalar : forall ch, char_ok ch = true -> is_scalar (decode_cp ch) = true.
+Proof.
+  intros ch Hc. destruct ch as [|a [|b [|c [|d [|e r]]]]]; cbn [char_ok] in Hc; try discriminate Hc;
+    cbn [decode_cp]; unfold in_range in Hc; unfold is_scalar.
+  - lia.
+  - assert (Ha : a mod 32 = a - 192) by (apply (mod_sub a 6 32); lia).
+    assert (Hb : b mod 64 = b - 128) by (apply (mod_sub b 2 64); lia).
+    rewrite Ha, Hb. lia.
+  - assert (Ha : a mod 16 = a - 224) by (apply (mod_sub a 14 16); lia).
+    assert (Hb : b mod 64 = b - 128) by (apply (mod_sub b 2 64); lia).
+    assert (Hc' : c mod 64 = c - 128) by (apply (mod_sub c 2 64); lia).
+    rewrite Ha, Hb, Hc'. lia.
+  - assert (Ha : a mod 8 = a - 240) by (apply (mod_sub a 30 8); lia).
+    assert (Hb : b mod 64 = b - 128) by (apply (mod_sub b 2 64); lia).
+    assert (Hc' : c mod 64 = c - 128) by (apply (mod_sub c 2 64); lia).
+    assert (Hd : d mod 64 = d - 128) by (apply (mod_sub d 2 64); lia).
+    rewrite Ha, Hb, Hc', Hd. lia.
+Qed.
+
+(* ---------- 21 : the boolean automaton decides Valid ---------- *)
+Ltac split_andb :=
+  repeat match goal with
+  | H : _ && _ = true |- _ => apply andb_true_iff in H; destruct H
+  end.
+
+(* soundness: for any fuel, acceptance implies validity *)
+Lemma utf8_valid_fuel_sound : forall f t, utf8_valid_fuel f t = true -> Valid t.
+Proof.
+  induction f as [|f IH]; intros t H.
+  - destruct t; [apply valid_nil | discriminate H].
+  - destruct t as [|a r]; [apply valid_nil|]. cbn [utf8_valid_fuel] in H.
+    destruct (a <? 128) eqn:E1.
+    { change (a :: r) with ([a] ++ r). apply valid_app; [apply valid_char; exact E1 | apply IH; exact H]. }
+    destruct (in_range 194 223 a) eqn:E2.
+    { destruct r as [|b r']; [discriminate H|]. split_andb.
+      change (a :: b :: r') with ([a; b] ++ r'). apply valid_app; [apply valid_char | apply IH; assumption].
+      cbn [char_ok]. unfold in_range in *. lia. }
+    assert (H3 : match r with
+                 | b :: c :: r' => char_ok [a; b; c] && utf8_valid_fuel f r'
+                 | _ => false end = true \/
+                 match r with
+                 | b :: c :: d :: r' => char_ok [a; b; c; d] && utf8_valid_fuel f r'
+                 | _ => false end = true).
+    { destruct (a =? 224) eqn:E3.
+      { left. destruct r as [|b [|c r']]; try discriminate H. split_andb.
+        apply andb_true_iff. split; [|assumption]. cbn [char_ok]. unfold in_range in *. lia. }
+      destruct (in_range 225 236 a || in_range 238 239 a) eqn:E4.
+      { left. destruct r as [|b [|c r']]; try discriminate H. split_andb.
+        apply andb_true_iff. split; [|assumption]. cbn [char_ok]. unfold in_range in *. lia. }
+      destruct (a =? 237) eqn:E5.
+      { left. destruct r as [|b [|c r']]; try discriminate H. split_andb.
+        apply andb_true_iff. split; [|assumption]. cbn [char_ok]. unfold in_range in *. lia. }
+      destruct (a =? 240) eqn:E6.
+      { right. destruct r as [|b [|c [|d r']]]; try discriminate H. split_andb.
+        apply andb_true_iff. split; [|assumption]. cbn [char_ok]. unfold in_range in *. lia. }
+      destruct (in_range 241 243 a) eqn:E7.
+      { right. destruct r as [|b [|c [|d r']]]; try discriminate H. split_andb.
+        apply andb_true_iff. split; [|assumption]. cbn [char_ok]. unfold in_range in *. lia. }
+      destruct (a =? 244) eqn:E8; [|discriminate H].
+      { right. destruct r as [|b [|c [|d r']]]; try discriminate H. split_andb.
+        apply andb_true_iff. split; [|assumption]. cbn [char_ok]. unfold in_range in *. lia. } }
+    destruct H3 as [H3|H3].
+    + destruct r as [|b [|c r']]; try discriminate H3. split_andb.
+      change (a :: b :: c :: r') with ([a; b; c] ++ r').
+      apply valid_app; [apply valid_char; assumption | apply IH; assumption].
+    + destruct r as [|b [|c [|d r']]]; try discriminate H3. split_andb.
+      change (a :: b :: c :: d :: r') with ([a; b; c; d] ++ r').
+      apply valid_app; [apply valid_char; assumption | apply IH; assumption].
+Qed.
+
+(* completeness: one step *)
+Lemma utf8_valid_fuel_step : forall f c r, char_ok c = true ->
+  utf8_valid_fuel f r = true -> utf8_valid_fuel (S f) (c ++ r) = true.
+Proof.
+  intros f c r Hc Hr.
+  destruct c as [|a [|b [|c [|d [|e r0]]]]]; cbn [char_ok] in Hc; try discriminate Hc;
+    cbn [app utf8_valid_fuel]; rewrite Hr; unfold in_range in *.
+  - rewrite Hc. reflexivity.
+  - cases_if; lia.
+  - cases_if; lia.
+  - cases_if; lia.
+Qed.
+
+Lemma utf8_valid_fuel_complete : forall cs f, Forall (fun c => char_ok c = true) cs ->
+  (length cs <= f)%nat -> utf8_valid_fuel f (concat cs) = true.
+Proof.
+  intros cs f Hcs. revert f. induction Hcs as [|c cs Hc Hcs IH]; intros f Hf.
+  - cbn [concat]. destruct f; reflexivity.
+  - cbn [length] in Hf. destruct f as [|f]; [lia|]. cbn [concat].
+    apply utf8_valid_fuel_step; [exact Hc | apply IH; lia].
+Qed.
+
+Theorem utf8_valid_iff : forall t, utf8_valid t = true <-> Valid t.
+Proof.
+  intros t. split.
+  - apply utf8_valid_fuel_sound.
+  - intros [cs [Hcs Et]]. subst t. unfold utf8_valid.
+    apply utf8_valid_fuel_complete; [exact Hcs | apply concat_length_ge; exact Hcs].
+Qed.
+
+Print Assumptions utf8_valid_iff.
+Print Assumptions valid_split_boundary.
+Print Assumptions encode_decode.
+Print Assumptions valid_chars_of.
